@@ -81,6 +81,14 @@ def handle (hdr : List String) (body : List (List String)) : List String :=
       let followed : List Blk := bundles.flatMap (·.blocks) ++ hubAtEnd
       let c13d := if send == "stop" && sp != 0 && filterSeesBlocks && !resumedPastStop && finalChain.any (·.num == sp) && followed.any (·.num == sp) && !(impl.any (·.ref.num == sp))
                   then ["monitor C13 FAIL stop-block-reached-without-delivering-the-stop-block"] else []
+      -- "a filter passes exactly the matching events": a stream by block number whose filter passes New blocks does not
+      -- go quiet with nothing delivered while the chain it follows holds blocks from its start block on
+      let passesNew := passesFilter cfg .new
+      let startAbs := absStart cfg hubCfg pushes
+      let c13e := if passesNew && cfg.cursor.isNone && impl.isEmpty && send == "stuck" &&
+                     followed.any (fun b => b.num ≥ startAbs && (sp == 0 || b.num ≤ sp)) &&
+                     followed.any (fun b => b.num == startAbs)     -- the start block itself is there (a request for a skipped number is refused by the hub)
+                  then ["monitor C13 FAIL nothing-delivered-although-the-filter-passes-new-blocks-and-the-chain-holds-blocks-from-the-start-on"] else []
       -- C11 at stream level: once the handler has failed on a block, Run reports the handler's error (not the stop block,
       -- not success) and the handler is not called again
       let c11 : List String := match cfg.failNum with
@@ -143,7 +151,7 @@ def handle (hdr : List String) (body : List (List String)) : List String :=
             if stalled != [] then stalled else
             if held.length == (held.foldl (fun (l : List Id) i => if l.contains i then l else l ++ [i]) []).length then []
             else ["monitor C07 FAIL a-block-is-held-twice-after-the-handoff"]
-      model ++ (c13c ++ c13a ++ c13b ++ c13d).take 1 ++ c07.take 1 ++ c11
+      model ++ (c13c ++ c13a ++ c13b ++ c13d ++ c13e).take 1 ++ c07.take 1 ++ c11
     | _, _, _, _, _ => ["model bad-case"]
   | _ => ["model bad-case"]
 
